@@ -100,7 +100,7 @@ func v1SameMemberTwice(d v1.Diff) bool {
 	return false
 }
 
-var c17OptSets = []string{"list", "list", "set", "mset", "setkeys:id", "set+setkeys:id", "merge"}
+var c17OptSets = []string{"list", "list", "set", "mset", "setkeys:id", "set+setkeys:id", "merge", "set+mset", "mset+set"}
 
 func checkC17(c PairCase, r *rec.Rec) error {
 	av, err := val.Parse(c.A)
@@ -449,3 +449,165 @@ func init() { Register("C17", "random", checkC17); Register("C18", "random", che
 
 func TestC17Random(t *testing.T) { RunRandom(t, "C17", "random", genC17, checkC17) }
 func TestC18Random(t *testing.T) { RunRandom(t, "C18", "random", genC18, checkC18) }
+
+// ---- C18 on documents that came out of a v1 Patch
+//
+// a' = Patch(A, A.Diff(X)) (strict, list mode) is a document like any other.
+// Its diff against B must render to RFC documents that are just as faithful,
+// and the read-back diff must turn a fresh a' into B.
+
+func checkC18Patched(c PatchedCase, r *rec.Rec) error {
+	mkA := func() v1.JsonNode {
+		out := v1Patch(v1Node(c.A), v1Node(c.A).Diff(v1Node(c.X)))
+		if !out.OK() {
+			return nil
+		}
+		return out.Node
+	}
+	var a0 v1.JsonNode
+	if msg, p := jdx.Guard(func() { a0 = mkA() }); p || a0 == nil {
+		r.Class("skipped:precondition: the strict diff applies (C17) " + msg)
+		return nil
+	}
+	pv, err := val.Parse(a0.Json())
+	if err != nil {
+		return rec.Violated("v1: the patched document is not readable JSON: %v", err)
+	}
+	bv, err := val.Parse(c.B)
+	if err != nil {
+		return fmt.Errorf("bad case: %v", err)
+	}
+	md := v1Metadata(c.Opts)
+	desc := fmt.Sprintf("a' = v1 Patch(%s, diff to %s) = %s, b = %s, %s", c.A, c.X, val.JSON(pv), c.B, c.Opts)
+	var cls []string
+	nontrivial := c.A != c.X
+	if c.Opts == "list" {
+		var ptext string
+		var perr error
+		if msg, p := jdx.Guard(func() { ptext, perr = mkA().Diff(v1Node(c.B)).RenderPatch() }); p {
+			return rec.Violated("%s: v1 RenderPatch panicked: %s", desc, msg)
+		}
+		if perr != nil {
+			r.Class("skipped:refused")
+			return nil
+		}
+		patch, err := val.Parse(ptext)
+		if err != nil {
+			return rec.Violated("%s: v1 RenderPatch output is not JSON: %v\n%s", desc, err, ptext)
+		}
+		got, err := ref.Patch6902(pv, patch)
+		if err != nil {
+			return rec.Violated("%s: the rendered JSON Patch does not apply to a' under RFC 6902: %v\npatch: %s", desc, err, ptext)
+		}
+		if !val.Equal(got, bv, val.List) {
+			return rec.Violated("%s: the rendered JSON Patch turns a' into %s\npatch: %s", desc, val.JSON(got), ptext)
+		}
+		d2, rerr := v1.ReadPatchString(ptext)
+		if rerr != nil {
+			return rec.Violated("%s: v1 cannot read its own JSON Patch: %v\npatch: %s", desc, rerr, ptext)
+		}
+		out := v1Patch(mkA(), d2)
+		if !out.OK() {
+			return rec.Violated("%s: its own JSON Patch, read back, %s on a'\npatch: %s", desc, out.word(), ptext)
+		}
+		if !out.Node.Equals(v1Node(c.B)) {
+			return rec.Violated("%s: its own JSON Patch, read back, turns a' into %s\npatch: %s", desc, out.Node.Json(), ptext)
+		}
+		cls = append(cls, "patch")
+	} else {
+		if val.HasNull(pv) || val.HasNull(bv) || val.IsVoid(pv) || val.IsVoid(bv) {
+			r.Class("skipped:null-or-void")
+			return nil
+		}
+		if mkA().Equals(v1Node(c.B), md...) {
+			r.Class("skipped:equal")
+			return nil
+		}
+		var mtext string
+		var merr error
+		if msg, p := jdx.Guard(func() { mtext, merr = mkA().Diff(v1Node(c.B), md...).RenderMerge() }); p {
+			return rec.Violated("%s: v1 RenderMerge panicked: %s", desc, msg)
+		}
+		if merr != nil {
+			return rec.Violated("%s: v1 RenderMerge fails on a merge-mode diff: %v", desc, merr)
+		}
+		mv, err := val.Parse(mtext)
+		if err != nil || val.IsVoid(mv) {
+			return rec.Violated("%s: v1 RenderMerge output is not a JSON document: %q", desc, mtext)
+		}
+		if got := ref.MergePatch(pv, mv); !val.Equal(got, bv, val.List) {
+			return rec.Violated("%s: MergePatch(a', %s) = %s", desc, mtext, val.JSON(got))
+		}
+		viol := rec.Violated
+		_, aObj := pv.(map[string]val.V)
+		if bo, ok := bv.(map[string]val.V); ok && len(bo) == 0 && !aObj {
+			viol = func(f string, a ...interface{}) error { return rec.Known("D17", f, a...) }
+		}
+		d2, rerr := v1.ReadMergeString(mtext)
+		if rerr != nil {
+			return viol("%s: v1 cannot read its own merge patch %s: %v", desc, mtext, rerr)
+		}
+		out := v1Patch(mkA(), d2)
+		if !out.OK() {
+			return viol("%s: its own merge patch %s, read back, %s on a'", desc, mtext, out.word())
+		}
+		if !out.Node.Equals(v1Node(c.B), md...) {
+			return viol("%s: its own merge patch %s, read back, turns a' into %s", desc, mtext, showText(out.Node.Json()))
+		}
+		// the native merge diff itself, on a fresh a'
+		out2 := v1Patch(mkA(), mkA().Diff(v1Node(c.B), md...))
+		if !out2.OK() || !out2.Node.Equals(v1Node(c.B), md...) {
+			return viol("%s: the merge-mode diff of a' and b does not turn a fresh a' into b (%s)", desc, out2.word())
+		}
+		cls = append(cls, "merge")
+	}
+	r.Case(fmt.Sprintf("%v", c), nontrivial, cls...)
+	if nontrivial {
+		r.Sample(c)
+	}
+	return nil
+}
+
+func genC18Patched(t *rapid.T) PatchedCase {
+	p := gen.Profile{ArrayBias: 60, MaxArr: 5, NullFree: true}
+	a := gen.Doc(t, p)
+	x := gen.EditN(t, a, p, 1, 3)
+	var b val.V
+	switch gen.Int(t, "bKind", 0, 3) {
+	case 0:
+		b = gen.EditN(t, x, p, 1, 3)
+	case 1:
+		b = gen.Doc(t, p)
+	case 2:
+		b = val.Clone(a)
+	default:
+		// arrays of x replaced by something else
+		b = replaceArrays(t, x)
+	}
+	return PatchedCase{A: val.JSON(a), X: val.JSON(x), PatchOpts: "list", B: val.JSON(b), Opts: gen.Pick(t, "opts", []string{"list", "merge", "merge"})}
+}
+
+func replaceArrays(t *rapid.T, v val.V) val.V {
+	switch x := v.(type) {
+	case []val.V:
+		if gen.Chance(t, "replaceIt", 50) {
+			return gen.Pick(t, "replacement", []val.V{[]val.V{9.0}, "s", map[string]val.V{"o": 1.0}, []val.V{}, 1.0})
+		}
+		out := make([]val.V, len(x))
+		for i, e := range x {
+			out[i] = replaceArrays(t, e)
+		}
+		return out
+	case map[string]val.V:
+		out := map[string]val.V{}
+		for _, k := range val.Keys(x) {
+			out[k] = replaceArrays(t, x[k])
+		}
+		return out
+	}
+	return v
+}
+
+func init() { Register("C18", "patched", checkC18Patched) }
+
+func TestC18Patched(t *testing.T) { RunRandom(t, "C18", "patched", genC18Patched, checkC18Patched) }
